@@ -1,6 +1,7 @@
 package characteristic
 
 import (
+	"math"
 	"net"
 )
 
@@ -19,17 +20,28 @@ func (c *Float) SetValue(value float64) {
 }
 
 func (c *Float) SetMinValue(value float64) {
-	c.MinValue = value
+	c.MinValue = bound(value)
 	c.applyRange()
 }
 
 func (c *Float) SetMaxValue(value float64) {
-	c.MaxValue = value
+	c.MaxValue = bound(value)
 	c.applyRange()
 }
 
 func (c *Float) SetStepValue(value float64) {
-	c.StepValue = value
+	c.StepValue = bound(value)
+}
+
+// bound returns the value for a minimum, maximum or step: NaN and ±Inf are no numbers a controller
+// could be told (they cannot be encoded as JSON, the accessories could not be served any more),
+// a characteristic with such a bound has no bound.
+func bound(value float64) interface{} {
+	if math.IsNaN(value) || math.IsInf(value, 0) {
+		return nil
+	}
+
+	return value
 }
 
 // GetValue returns the value as float
